@@ -229,6 +229,8 @@ type ginstCtx struct {
 	decls    []string
 	skBySort map[string][]string
 	inGoal   bool
+	bareOnly bool
+	parents  map[string][]string // declared array -> arrays its defining (copy / frame) axiom reads
 	gterms   []*gterm
 	gseen    map[string]bool
 	defSeen  map[string]bool
@@ -402,7 +404,12 @@ func (g *ginstCtx) arrayRoots(t *sx, depth int, out map[string]bool) (nest int) 
 		if d, ok := g.defs[t.atom]; ok {
 			return g.arrayRoots(d, depth+1, out)
 		}
-		out[t.atom] = true
+		if !out[t.atom] {
+			out[t.atom] = true
+			for _, p := range g.parents[t.atom] {
+				g.arrayRoots(&sx{atom: p}, depth+1, out)
+			}
+		}
 		return 0
 	}
 	switch t.head() {
@@ -411,7 +418,9 @@ func (g *ginstCtx) arrayRoots(t *sx, depth int, out map[string]bool) (nest int) 
 	case "ite":
 		if len(t.list) == 4 {
 			n := g.arrayRoots(t.list[2], depth+1, out)
-			g.arrayRoots(t.list[3], depth+1, out)
+			if m := g.arrayRoots(t.list[3], depth+1, out); m > n {
+				n = m
+			}
 			return n
 		}
 	case "select":
@@ -725,8 +734,26 @@ func (g *ginstCtx) candidates(body *sx, x string, others map[string]bool) []stri
 				}
 				ground = gt.args[tr.argi]
 			}
+			if g.bareOnly && !(tr.pat.isAtom() && tr.pat.atom == x) {
+				continue
+			}
 			v, exact, ok := solveForX(tr.pat, x, ground)
-			if !ok || seen[v] || g.ufDepth(v) > 1 {
+			if !ok {
+				continue
+			}
+			if !exact && !g.bareOnly {
+				// base' + w against base + x with different bases (the same slice before and after a reallocation,
+				// or seen through a copy): the summands of the ground index are index guesses
+				if c, _, okl := linearIn(tr.pat, x); okl && c == 1 {
+					for _, sm := range flattenSum(ground) {
+						if !seen[sm] && len(sm) < 80 && g.ufDepth(sm) <= 1 {
+							seen[sm] = true
+							looseC = append(looseC, sm)
+						}
+					}
+				}
+			}
+			if seen[v] || g.ufDepth(v) > 1 {
 				continue
 			}
 			seen[v] = true
@@ -747,8 +774,8 @@ func (g *ginstCtx) candidates(body *sx, x string, others map[string]bool) []stri
 	}
 	byLen(exactC)
 	byLen(looseC)
-	if len(looseC) > 4 {
-		looseC = looseC[:4]
+	if len(looseC) > 6 {
+		looseC = looseC[:6]
 	}
 	return append(exactC, looseC...)
 }
@@ -785,7 +812,15 @@ func (g *ginstCtx) instantiate(t *sx, depth int) {
 					others[o.list[0].atom] = true
 				}
 			}
-			cs := g.candidates(body, b.list[0].atom, others)
+			var cs []string
+			if b.list[1].String() == "Int" {
+				cs = g.candidates(body, b.list[0].atom, others)
+			} else {
+				// other sorts: only where the bound variable itself is the index or argument (no arithmetic to undo)
+				g.bareOnly = true
+				cs = g.candidates(body, b.list[0].atom, others)
+				g.bareOnly = false
+			}
 			if srt := b.list[1].String(); strings.HasPrefix(srt, "(_ BitVec") {
 				// bit-vector binders have no arithmetic patterns: the named witnesses of that sort
 				cs = append(cs, g.skBySort[srt]...)
@@ -891,6 +926,51 @@ func ginstScriptOpt(script string, groundOnly, ufBridge bool) string {
 	}
 	if goalIdx < 0 {
 		return ""
+	}
+	// arrays introduced by an axiom "forall a. select X a = ... select Y ..." descend from the arrays that axiom reads
+	g.parents = map[string][]string{}
+	for _, c := range cmds {
+		if c.head() != "assert" || len(c.list) != 2 || c.list[1].head() != "forall" || len(c.list[1].list) != 3 {
+			continue
+		}
+		q := c.list[1]
+		if len(q.list[1].list) != 1 {
+			continue
+		}
+		x := q.list[1].list[0].list[0].atom
+		var arrs []string
+		seenA := map[string]bool{}
+		var walk func(t *sx)
+		walk = func(t *sx) {
+			if t.list == nil {
+				return
+			}
+			if t.head() == "select" && len(t.list) == 3 && t.list[1].isAtom() && t.list[2].mentions(x) {
+				if srt, ok := br.sorts[t.list[1].atom]; ok && srt.head() == "Array" && !seenA[t.list[1].atom] {
+					seenA[t.list[1].atom] = true
+					if _, isDef := g.defs[t.list[1].atom]; !isDef {
+						arrs = append(arrs, t.list[1].atom)
+					} else if len(arrs) > 0 {
+						rs := map[string]bool{}
+						g.arrayRoots(t.list[1], 0, rs)
+						for r := range rs {
+							if !seenA[r] {
+								seenA[r] = true
+								arrs = append(arrs, r)
+							}
+						}
+					}
+				}
+			}
+			for _, cc := range t.list {
+				walk(cc)
+			}
+		}
+		walk(stripPattern(q.list[2]))
+		if len(arrs) >= 2 {
+			// the first array read at the bound address is the one being defined
+			g.parents[arrs[0]] = append(g.parents[arrs[0]], arrs[1:]...)
+		}
 	}
 	// pass 1: expand macros and name witnesses
 	terms := map[int]*sx{}
